@@ -7,7 +7,7 @@ single-precision tolerance."""
 import os, sys, json, time, struct, glob
 import framework as fw
 from framework import Violation, Inconclusive
-from driver import Driver, DriverCrash, DriverHang
+from driver import Driver, DriverCrash, DriverHang, shape_params, encode_text
 import fonts, cases, sfnt
 
 PROP = 'C15'
@@ -74,6 +74,9 @@ def judge(case, drv):
 def replay_case(case):
     drv = Driver(timeout=120)
     try:
+        if case.get('justified'):
+            judge_justified(case, drv)
+            return
         judge(case, drv)
     finally:
         drv.kill()
@@ -88,6 +91,68 @@ def replay_file(path):
         return 1
     print('replay: property held on', path)
     return 0
+
+
+def judge_justified(case, drv):
+    """Positions after gr_slot_linebreak_before + gr_seg_justify scale like every other position: the second line of a left-to-right
+    segment is justified to 1.25 x its natural width, once with font = NULL (width in design units) and once with a font of P
+    pixels per em (width x P/upem); origins of that line and the returned width must agree up to the scaling."""
+    import props.c19 as c19
+    font = cases.font_bytes(case)
+    info = c19.font_info(font)
+    if info is None or (info['dir'] & 1) or (case['dir'] & 1):
+        return None                                   # left-to-right font and text only (KF2 / RTL sibling order are C19 matters)
+    upem = upem_of(font)
+    fid = drv.put_font(font)
+    scale = case['ppm'] / upem
+
+    def run(ppm, width):
+        tb = encode_text(case['text'], case.get('enc', 4))
+        ops = b''
+        n = 0
+        if ppm:
+            ops += bytes([3]) + struct.pack('<f', ppm); n += 1
+        ops += bytes([1]) + struct.pack('<hhB', 0 if ppm else -1, -1, 1) + shape_params(tb, enc=case.get('enc', 4), dir=case['dir'], ppm=0.0); n += 1
+        if width is not None:
+            ops += bytes([15]) + struct.pack('<HH', 0, case['brk']); n += 1
+            ops += bytes([14]) + struct.pack('<HHhdBhh', 0, case['brk'], 0 if ppm else -1, width, 0, -1, -1); n += 1
+        ops += bytes([18]) + struct.pack('<H', 0); n += 1
+        try:
+            r = drv.call(b'H' + struct.pack('<IBB', fid, 0, 0) + struct.pack('<H', n) + ops, timeout=30)
+        except DriverCrash as e:
+            raise Violation('sanitizer:' + e.kind + ':' + e.summary, case, e.stderr[-1500:])
+        except DriverHang:
+            raise Inconclusive()
+        if not r.get('face') or 'obs' not in r:
+            raise Inconclusive()
+        return r['obs']
+
+    nat = run(0.0, None)
+    if not nat or not nat[0].get('seg') or nat[-1] is None:
+        return None
+    pos = nat[-1]['pos']
+    b = case['brk']
+    if not (0 < b < len(pos)):
+        return None
+    line_nat = fl(nat[0]['dump']['adv'][0]) - pos[b][0]
+    if not (line_nat > 1.0):
+        return None
+    W = 1.25 * line_nat
+    a = run(0.0, W)
+    g = run(case['ppm'], W * scale)
+    if a[-1] is None or g[-1] is None or a[-2] is None or g[-2] is None:
+        raise Inconclusive()
+    nline = len(pos) - b
+    # the engine hands out the stretch in whole design units per slot (truncation): one unit of slack per slot of the line
+    tol = (1e-5 * max(1.0, W, abs(pos[b][0])) + nline + 2) * scale
+    for i in range(b, len(pos)):
+        for k, what in ((0, 'x'), (1, 'y')):
+            if not (abs(g[-1]['pos'][i][k] - a[-1]['pos'][i][k] * scale) <= tol):
+                raise Violation('justified-position-not-scaled-linearly:origin-' + what, case, 'slot %d: NULL-font %r * %r vs %r (tol %r)' % (i, a[-1]['pos'][i][k], scale, g[-1]['pos'][i][k], tol))
+    wa, wg = float(a[-2]['w']), float(g[-2]['w'])
+    if not (abs(wg - wa * scale) <= tol):
+        raise Violation('justified-width-not-scaled-linearly', case, 'NULL-font %r * %r vs %r (tol %r)' % (wa, scale, wg, tol))
+    return True
 
 
 def worker(ctx):
@@ -108,7 +173,22 @@ def worker(ctx):
                      shipped=case['kind'] == 'shipped', synthesised=case['kind'] == 'spec', attached=r.get('st', {}).get('att', 0) > 0, rtl=bool(case['dir'] & 1), tiny_ppm=ppm < 1, huge_ppm=ppm > 1000)
         return t
 
-    ctx.run_hypothesis(make, ctx.n(40000, 600000) // ctx.nworkers + 1, replay_fn=replay_case)
+    def make_just(deco):
+        @deco
+        @given(cases.case_strategy(names, sup, max_len=20), st.sampled_from([8.0, 12.0, 20.0, 96.5, 500.0, 2048.0]), st.integers(1, 12))
+        def t(case, ppm, brk):
+            txt = list(case['text'])
+            if len(txt) >= 2:
+                txt.insert(len(txt) // 2, 0x20)
+            case = dict(case, text=txt, ppm=ppm, brk=brk, dir=case['dir'] & 6, justified=True)
+            ok = judge_justified(case, drv)
+            rec.case(nontrivial_sig=json.dumps(case, sort_keys=True) if ok else None, sample=dict(font=case.get('font', 'synthesised'), text=txt, ppm=ppm, line_break_before=brk, justified=True) if ok else None,
+                     justified_line_compared=bool(ok))
+        return t
+
+    n = ctx.n(40000, 600000) // ctx.nworkers + 1
+    ctx.run_hypothesis(make, n, replay_fn=replay_case, share=0.7)
+    ctx.run_hypothesis(make_just, n // 5, replay_fn=replay_case)
     try:
         drv.stop()
     except DriverCrash as e:
